@@ -18,7 +18,12 @@
 #include <cstdlib>
 #include <new>
 
-#if defined(__SANITIZE_ADDRESS__)
+#if defined(__has_feature)
+#if __has_feature(address_sanitizer)
+#define C19_CLANG_ASAN 1
+#endif
+#endif
+#if defined(__SANITIZE_ADDRESS__) || defined(C19_CLANG_ASAN)
 #include <sanitizer/lsan_interface.h>
 #define C19_ASAN 1
 #else
@@ -170,9 +175,7 @@ void exhaustive(const vf::Options& o, vf::Tally& tally)
    account_fixed_script(o, tally, c, "zoo script of the lifetime profile: every op x operand variants x 3 rounds (" + std::to_string(c.ops.size()) + " ops)", run_case, 150);
 }
 
-}   // namespace
-
-int main(int argc, char** argv)
+vf::Hooks<Case> make_hooks(const vf::Options&)
 {
    vf::Hooks<Case> hk;
    hk.generator = [](const vf::Options&) { return case_gen("lifetime"); };
@@ -181,5 +184,10 @@ int main(int argc, char** argv)
    hk.from_text = [](const std::string& s, Case& c) { return from_text(s, c); };
    hk.sample = sample;
    hk.exhaustive = exhaustive;
-   return vf::drive<Case>(argc, argv, "C19", hk);
+   return hk;
 }
+bool decode(const std::uint8_t* d, std::size_t n, const vf::Options&, Case& c) { return script_from_bytes(d, n, "lifetime", 0, c); }
+
+}   // namespace
+
+VF_MAIN(Case, "C19", make_hooks, decode)
